@@ -343,6 +343,34 @@ theorem stepWorld_okJ {s : Sim} (hI : SInvJ s) (op : Op) :
   | editMax k' n =>
     have : (stepWorld s (.editMax k' n)).1.jobs = s.cur.jobs := by simp only [stepWorld]; split <;> rfl
     exact ⟨⟨t1, t2, (same this).2⟩, t3, (same this).1⟩
+  | jobGone k' =>
+    refine ⟨⟨t1, t2, ?_⟩, t3, ?_⟩
+    · simp only [stepWorld]
+      split
+      · exact hJ
+      · split
+        · exact (map_jobkey_filter _ _).nodup hJ
+        · exact hJ
+    · simp only [stepWorld]
+      split
+      · intro k hk hn; rw [hn] at hk; cases hk
+      · rename_i t ht
+        split
+        · rename_i hc
+          simp only [Bool.and_eq_true] at hc
+          intro k hk hnone
+          by_cases hkk : k = k'
+          · subst hkk
+            exact ⟨t, ht, hc.1⟩
+          · exfalso
+            unfold findJob at hk hnone
+            simp only [] at hnone
+            obtain ⟨j, hj⟩ := Option.isSome_iff_exists.1 hk
+            have hjmem := List.mem_of_find?_eq_some hj
+            have hjk : j.key = k := by simpa using List.find?_some hj
+            have := List.find?_eq_none.1 hnone j (List.mem_filter.2 ⟨hjmem, by simp [hjk, hkk]⟩)
+            simp [hjk] at this
+        · intro k hk hn; rw [hn] at hk; cases hk
   | noop => exact ⟨⟨t1, t2, hJ⟩, t3, fun k hk hn => by rw [show findJob (stepWorld s .noop).1 k = findJob s.cur k from rfl] at hn; rw [hn] at hk; cases hk⟩
 
 theorem step_invJ {s : Sim} (hI : SInvJ s) (op : Op) : SInvJ (step s op).1 := by
